@@ -8,7 +8,7 @@ use core::any::{Any, TypeId};
 use alloc::rc::Rc;
 use alloc::string::ToString;
 use alloc::string::String;
-use chrono::{Datelike, Duration, NaiveDate, Utc, TimeZone};
+use chrono::{Datelike, Duration, NaiveDate, TimeZone};
 use crate::session::Session;
 use crate::compiler::duration::DurationItem;
 use crate::config::SmartCalcConfig;
@@ -129,7 +129,7 @@ impl DataItem for DateItem {
             }
         };
         
-        let date_format = match self.0.year() == Utc::now().date().year() {
+        let date_format = match self.0.year() == session.now().year() {
             true => format.date.get("current_year"),
             false => format.date.get("full_date")
         };
